@@ -254,6 +254,9 @@ theorem pppoe_apply_inv (p p' : PPPoE) (op : List String) (h : p.Inv) (ha : p.ap
   · split at ha
     · exact pppoe_addTyped_inv p p' _ _ h (Nat.mod_lt _ (by decide)) ha
     · cases ha
+  · split at ha
+    · exact pppoe_addTyped_inv p p' _ _ h (Nat.mod_lt _ (by decide)) ha
+    · cases ha
   · injection ha with ha; subst ha; exact PPPoE.addTag_inv p _ h ⟨rfl, c0, by simp⟩
   · exact pppoe_addTyped_inv p p' _ _ h c1 ha
   · exact pppoe_addTyped_inv p p' _ _ h c2 ha
